@@ -24,6 +24,92 @@ func without(a []string, bad string) []string {
 
 var c15Frag = append(without(alpha.H2, "<="), "&#60;", "&#61;", "&#x3c", "&#x3d;", "javascript:", "onerror", "href", "style", "src", "data:", "xmlns", "-->", "]]>", "%>", ">", "/>", "' ", "\" ")
 
+
+// c15Spellings: every other way the three markup bytes are commonly written — URL, HTML reference, JS / CSS escape,
+// UTF-7 shifted unit, overlong UTF-8, full-width and small-form code points, the high-bit twin. A change that makes IsXSS read any of them
+// as the byte itself turns a '<'/'='-free input into a report, which C15 forbids.
+var c15Spellings = []map[byte]string{
+	{'<': "%3C", '=': "%3D", '>': "%3E"}, {'<': "%3c", '=': "%3d", '>': "%3e"},
+	{'<': "%253C", '=': "%253D", '>': "%253E"}, {'<': "%u003C", '=': "%u003D", '>': "%u003E"},
+	{'<': "&lt;", '=': "&equals;", '>': "&gt;"}, {'<': "&LT", '=': "&Equal;", '>': "&GT"}, {'<': "&lt", '=': "&equals", '>': "&gt"},
+	{'<': "&#60;", '=': "&#61;", '>': "&#62;"}, {'<': "&#060", '=': "&#061", '>': "&#062"}, {'<': "&#0000060;", '=': "&#0000061;", '>': "&#0000062;"},
+	{'<': "&#x3c;", '=': "&#x3d;", '>': "&#x3e;"}, {'<': "&#X3C", '=': "&#X3D", '>': "&#X3E"}, {'<': "&#x003c;", '=': "&#x003d;", '>': "&#x003e;"},
+	{'<': "\\x3c", '=': "\\x3d", '>': "\\x3e"}, {'<': "\\u003c", '=': "\\u003d", '>': "\\u003e"}, {'<': "\\u{3c}", '=': "\\u{3d}", '>': "\\u{3e}"},
+	{'<': "\\74", '=': "\\75", '>': "\\76"}, {'<': "\\3c ", '=': "\\3d ", '>': "\\3e "}, {'<': "\\00003c", '=': "\\00003d", '>': "\\00003e"},
+	{'<': "+ADw-", '=': "+AD0-", '>': "+AD4-"}, {'<': "+ADw", '=': "+AD0", '>': "+AD4"},
+	{'<': "\xc0\xbc", '=': "\xc0\xbd", '>': "\xc0\xbe"}, {'<': "\xe0\x80\xbc", '=': "\xe0\x80\xbd", '>': "\xe0\x80\xbe"},
+	{'<': "\xef\xbc\x9c", '=': "\xef\xbc\x9d", '>': "\xef\xbc\x9e"}, {'<': "\xef\xb9\xa4", '=': "\xef\xb9\xa6", '>': "\xef\xb9\xa5"},
+	{'<': "\xbc", '=': "\xbd", '>': "\xbe"}, // the byte with bit 7 set (a 7-bit strip brings it back)
+}
+
+// c15Respell writes s with '<' and '=' (and, when gt, also '>') replaced by their spelling in m.
+func c15Respell(s string, m map[byte]string, gt bool) string {
+	var b strings.Builder
+	for i := 0; i < len(s); i++ {
+		c := s[i]
+		if r, ok := m[c]; ok && (c != '>' || gt) {
+			b.WriteString(r)
+		} else {
+			b.WriteByte(c)
+		}
+	}
+	return b.String()
+}
+
+const b64std = "ABCDEFGHIJKLMNOPQRSTUVWXYZabcdefghijklmnopqrstuvwxyz0123456789+/"
+
+// c15B64 is unpadded base64 of b (padding would be '=').
+func c15B64(b []byte) string {
+	var o strings.Builder
+	for i := 0; i < len(b); i += 3 {
+		var v uint32
+		n := 0
+		for j := 0; j < 3; j++ {
+			v <<= 8
+			if i+j < len(b) {
+				v |= uint32(b[i+j])
+				n++
+			}
+		}
+		for j := 0; j <= n; j++ {
+			o.WriteByte(b64std[(v>>(18-6*uint(j)))&63])
+		}
+	}
+	return o.String()
+}
+
+// c15Whole: whole-vector transports — UTF-7 with the complete text shifted, UTF-7 with only the maximal runs that contain a
+// markup byte shifted, plain base64 of the bytes, and UTF-16 / UTF-32 code units whose markup bytes are moved out of reach.
+func c15Whole(s string) []string {
+	u16 := func(t string) []byte {
+		var o []byte
+		for i := 0; i < len(t); i++ {
+			o = append(o, 0, t[i])
+		}
+		return o
+	}
+	out := []string{"+" + c15B64(u16(s)) + "-", "+" + c15B64(u16(s)), c15B64([]byte(s)), "data:text/html;base64," + c15B64([]byte(s))}
+	var b strings.Builder
+	for i := 0; i < len(s); {
+		j := i
+		for j < len(s) && strings.IndexByte("<=>\"'", s[j]) >= 0 {
+			j++
+		}
+		if j > i {
+			b.WriteString("+" + c15B64(u16(s[i:j])) + "-")
+			i = j
+			continue
+		}
+		if s[i] == '+' {
+			b.WriteString("+-")
+		} else {
+			b.WriteByte(s[i])
+		}
+		i++
+	}
+	return append(out, b.String())
+}
+
 func evalC15(w *fw.W, s, _ string) {
 	if strings.ContainsAny(s, "<=") {
 		panic("C15 family generated an input with < or =")
@@ -137,6 +223,26 @@ func init() {
 						}
 					}
 					w.Each(len(items), func(i int) { w.Item(items[i], "") })
+				}, Eval: evalC15},
+			{Name: "respelled-vectors", Space: fmt.Sprintf("every base vector of the C04 grammar (as written) x %d byte spellings of '<' '=' ('>' kept and respelled) + 5 whole-vector transports (UTF-7 complete / markup runs only, base64, data: base64), bare and behind 6 prefixes; members that still hold a raw '<' or '=' are dropped", len(c15Spellings)), Share: 2,
+				Run: func(w *fw.W) {
+					v := c04Vectors(false)
+					pre := []string{"", "x ", "\">", "'>", "+A ", "%"}
+					w.Each(len(v), func(i int) {
+						var forms []string
+						for _, m := range c15Spellings {
+							forms = append(forms, c15Respell(v[i], m, false), c15Respell(v[i], m, true))
+						}
+						forms = append(forms, c15Whole(v[i])...)
+						for _, f := range forms {
+							if strings.ContainsAny(f, "<=") {
+								continue
+							}
+							for _, p := range pre {
+								w.Item(p+f, "")
+							}
+						}
+					})
 				}, Eval: evalC15},
 			{Name: "new-literals", Space: deltaSpace + " (symbols with '<' or '=' dropped)", Share: 2,
 				Run: func(w *fw.W) {
